@@ -94,6 +94,7 @@ def run_nlc(case, ctx):
     K = "C18/nlc/"
     Xk = X.copy()
     dfk = df.copy(deep=True)
+    axes_before = (list(df.columns.names), list(df.index.names), dict(df.attrs))
     seed = case["sub"] % 1000
     try:
         numpy.random.seed(seed)
@@ -238,14 +239,34 @@ def run_nlc(case, ctx):
             ctx.violation(K + "layout-changes-values/%s" % lname, "values depend on the memory layout", cfg=cfg)
     ctx.check(df.equals(dfk) and list(df.index) == list(dfk.index), K + "input-modified",
               "the DataFrame was modified", cfg=cfg)
+    # ... its axes too: names of the column / row axis, attrs, labels, dtypes
+    axes_after = (list(df.columns.names), list(df.index.names), dict(df.attrs))
+    ctx.hit("nlc.frame_axes_untouched")
+    ctx.check(axes_after == axes_before and list(df.columns) == cols and [str(t) for t in df.dtypes] == [
+        str(t) for t in dfk.dtypes], K + "input-modified/frame-axes",
+        "the DataFrame's axes were modified: (columns.names, index.names, attrs) %r -> %r" % (
+            axes_before[:3], axes_after[:3]), cfg=cfg)
     if kind != "gauss" or d >= 3:
         ctx.nontriv("nlc", cfg)
     ctx.sample({"cfg": cfg, "mean_row0": ca[0], "min_row0": mia[0], "max_row0": maa[0]})
 
 
-TR = {"None": None, "log": "log", "exp": "exp", "sqrt": numpy.sqrt, "square": numpy.square, "log1p": numpy.log1p}
+def _user_log():
+    def log(a):            # the caller's own function, which happens to be called log: a decimal logarithm
+        return numpy.log10(a)
+    return log
+
+
+def _user_exp():
+    def exp(a):            # the caller's own exp: powers of ten
+        return 10.0 ** a
+    return exp
+
+
+TR = {"None": None, "log": "log", "exp": "exp", "sqrt": numpy.sqrt, "square": numpy.square, "log1p": numpy.log1p,
+      "callable-named-log": _user_log(), "callable-named-exp": _user_exp()}
 REF = {"None": lambda a: a, "log": numpy.log, "exp": numpy.exp, "sqrt": numpy.sqrt, "square": numpy.square,
-       "log1p": numpy.log1p}
+       "log1p": numpy.log1p, "callable-named-log": numpy.log10, "callable-named-exp": lambda a: 10.0 ** a}
 
 
 def run_r2(case, ctx):
